@@ -277,6 +277,20 @@ fn audit_cmd(t: usize, keys: &[(u32, u64)]) -> Value {
 
 const MAX_HANGS: u64 = 3;
 
+/// start a history; after a history that ended in a failed call the next one goes to a new chunk
+/// file (the validation of a chunk stops at an event that is not a step of the specification)
+fn begin(out: &mut TraceOut, rotate: &mut bool) {
+    if *rotate {
+        let ce = out.chunk_events;
+        out.chunk_events = 0;
+        out.begin_history();
+        out.chunk_events = ce;
+        *rotate = false;
+    } else {
+        out.begin_history();
+    }
+}
+
 // ---------------------------------------------------------------------------------------------
 // T: replay of model behaviours
 
@@ -289,6 +303,7 @@ fn replay(args: &Args) {
     let f = std::fs::File::open(&path).unwrap_or_else(|e| panic!("harness: cannot open {path}: {e}"));
     let mut st = Stats::new();
     let (mut rows, mut nontrivial, mut skipped) = (0u64, 0u64, 0u64);
+    let mut rotate = false;
     let interesting = ["reuse", "+tomb", "+wrap", "+grow", "+rehash", "+shrink", "+t2f", "trailtombs", "totomb", "+lastslot", "+alloc", "tombs"];
     for line in std::io::BufReader::new(f).lines() {
         let line = line.unwrap();
@@ -308,7 +323,7 @@ fn replay(args: &Args) {
         if ops.iter().any(|o| interesting.iter().any(|s| o[7].as_str().unwrap_or("").contains(s))) {
             nontrivial += 1;
         }
-        out.begin_history();
+        begin(&mut out, &mut rotate);
         out.emit(json!({"ev": "reset", "kind": "hashtbl", "tag": b["cfg"], "status": status, "tabs": ntab, "src": "model"}));
         let mut s = Session::new(&status, timeout);
         st.slots = [0; MAXTAB + 1];
@@ -353,6 +368,7 @@ fn replay(args: &Args) {
                 }
             }
         }
+        rotate = !ok;
     }
     out.finish();
     write_summary(&dir, &format!("hashtbl-replay-{status}"), &out, json!({"rows": rows, "nontrivial": nontrivial,
@@ -393,6 +409,7 @@ fn random(args: &Args) {
     let mut st = Stats::new();
     let (mut done, mut histories, mut stamp) = (0u64, 0u64, 0u32);
     let mut fams_used = std::collections::BTreeMap::<String, u64>::new();
+    let mut rotate = false;
     while done < total && st.hangs < MAX_HANGS {
         let fam = FAMILIES[(histories as usize + rng.below(2) * 4) % FAMILIES.len()];
         let status = if histories % 2 == 0 { "u32" } else { "usize" };
@@ -401,7 +418,7 @@ fn random(args: &Args) {
         let keys: Vec<(u32, u64)> = hash.iter().enumerate().map(|(i, &h)| (i as u32 + 1, h)).collect();
         *fams_used.entry(fam.to_string()).or_insert(0) += 1;
         histories += 1;
-        out.begin_history();
+        begin(&mut out, &mut rotate);
         out.emit(json!({"ev": "reset", "kind": "hashtbl", "tag": fam, "status": status, "tabs": 2, "src": "random",
             "keys": nkeys, "seed": seed}));
         let mut s = Session::new(status, timeout);
@@ -510,6 +527,7 @@ fn random(args: &Args) {
                 call!(audit_cmd(3 - cur, &keys));
             }
         }
+        rotate = !ok;
     }
     out.finish();
     write_summary(&dir, "hashtbl-random", &out, json!({"rows": 0, "nontrivial": st.grow + st.shrink,
